@@ -1011,6 +1011,10 @@ impl<M: RawMutex + 'static, P: Payload> MpmcCore<M, P> {
                             });
                             self.order.push_back((t, None));
                         }
+                        Err(e) if !(e.is_full() ^ e.is_closed()) => {
+                            ctx.fail("C11", "try-send-error-accessors-agree-with-the-variant", "TrySendError::is_full / is_closed disagree".into());
+                            let _ = self.consume(ctx, e.into_inner(), "try_send error");
+                        }
                         Err(TrySendError::Full(v)) => {
                             let got = self.consume(ctx, v, "try_send Full");
                             ctx.check("C08", "rejected-value-handed-back", true, got == t, || format!("Full error returned tag {} instead of {}", got, t));
@@ -1037,6 +1041,7 @@ impl<M: RawMutex + 'static, P: Payload> MpmcCore<M, P> {
                         Err(e) => {
                             let avail = !self.order.is_empty();
                             let expect = if self.closed { TryReceiveError::Closed } else { TryReceiveError::Empty };
+                            ctx.check("C11", "try-receive-error-accessors-agree-with-the-variant", true, e.is_closed() == (e == TryReceiveError::Closed) && e.is_empty() == (e == TryReceiveError::Empty), || "TryReceiveError accessors disagree with the variant".into());
                             ctx.check("C11", "try_receive-error-is-closed-iff-closed-and-drained", true, !avail && e == expect, || {
                                 format!("try_receive returned {:?} with {} values inside, closed={}", e, self.order.len(), self.closed)
                             });
@@ -1049,6 +1054,7 @@ impl<M: RawMutex + 'static, P: Payload> MpmcCore<M, P> {
                 let via_rx = ev.a == 1;
                 if let Some(st) = call(ctx, "close", 0, 0, || api.close(via_rx)) {
                     let expect = if self.closed { CloseStatus::AlreadyClosed } else { CloseStatus::NewlyClosed };
+                    ctx.check("C11", "close-status-accessors-agree-with-the-variant", true, st.is_newly_closed() == (st == CloseStatus::NewlyClosed) && st.is_already_closed() == (st == CloseStatus::AlreadyClosed), || "CloseStatus accessors disagree with the variant".into());
                     ctx.check("C11", "close-is-newly-closed-once-then-already-closed", true, st == expect, || format!("close() returned {:?}, expected {:?}", st, expect));
                     self.model_close();
                 }
